@@ -394,7 +394,7 @@ def _oracle_stat(case):
 # ------------------------------------------------------------------------------------------------------------
 def run(ctx):
     rng = ctx.rng
-    cases = [gen_case(rng, ctx.quick) for _ in range(ctx.n(6, 30))]
+    cases = [gen_case(rng, ctx.quick) for _ in range(ctx.n(3, 30))]
     for impl in ("jax", "cl"):
         for pe in ("a", "none"):
             c = gen_case(rng, ctx.quick, impl=impl)
